@@ -208,18 +208,28 @@ where
         stmt.query_row([event_id], |row| row.try_into())
     }
 
-    /// Delete an event from the database table.
+    /// Delete the most recent event with the given commit hash
+    /// from the event log of an account or folder.
+    ///
+    /// Event tables are shared by many event logs and a log may
+    /// contain identical events, so only the newest matching row
+    /// that belongs to the log is removed.
     pub fn delete_one(
         &self,
         log_type: EventLogType,
+        account_or_folder_id: i64,
         commit_hash: &CommitHash,
     ) -> Result<(), SqlError> {
         let table: EventTable = log_type.into();
         let query = sql::Delete::new()
             .delete_from(table.as_str())
-            .where_clause("commit_hash = ?1");
+            .where_clause(&format!(
+                "event_id = (SELECT MAX(event_id) FROM {} WHERE {}=?1 AND commit_hash=?2)",
+                table.as_str(),
+                table.id_column()
+            ));
         let mut stmt = self.conn.prepare_cached(&query.as_string())?;
-        stmt.execute([commit_hash.as_ref()])?;
+        stmt.execute((account_or_folder_id, commit_hash.as_ref()))?;
         Ok(())
     }
 
